@@ -4,9 +4,11 @@ quick:
 	./run_all.sh quick
 thorough:
 	./run_all.sh thorough
-selftest: selftest-oracle selftest-determinism
+selftest: selftest-oracle selftest-determinism selftest-reach
 selftest-oracle:
 	./check selftest oracle
+selftest-reach:
+	./check selftest reach
 selftest-determinism:
 	./check selftest determinism 40
 sensitivity:
